@@ -277,6 +277,10 @@ def registry_hits(rep: Report, prog: Program, cm: ClassModel) -> None:
                         body = cfg.loop_body.get(hn, set())
                         if any(verifies(m, X=Y) for m in body) and any(cfg.nodes[m].kind == 'raise' for m in body):
                             ok = True; detail = f"verified by the earlier loop over {loopvar_iter} at line {lp.lineno}"
+                            lvl = _loop_level(lp, selfn)
+                            rep.ob(rule + ' among-incoming', f.fq(), f"the verifying loop over {loopvar_iter} also compares the incoming nodes with each other", f.loc(lp), lvl == 2,
+                                   'clashes between two new nodes of the same call are rejected too' if lvl == 2 else
+                                   'each incoming node is compared only with the nodes already in the graph: two different new nodes sharing an id pass, and only the first becomes a member')
                 if not ok and loopvar_iter is not None:
                     # accepted idiom: a dominating call self.<checker>(<same iterable>) whose body compares, for every element,
                     # the node registered under the element's id with the element and raises on a mismatch
@@ -287,32 +291,49 @@ def registry_hits(rep: Report, prog: Program, cm: ClassModel) -> None:
                                 h = prog.find_method(g, name)
                                 if h is None or not call.args or norm(call.args[0]) != loopvar_iter:
                                     continue
-                                if _verifying_checker(h):
+                                lvl = _verifying_checker(h)
+                                if lvl:
                                     ok = True; detail = f"verified by the dominating call self.{name}({loopvar_iter})"
+                                    rep.ob(rule + ' among-incoming', f.fq(), f"self.{name}({loopvar_iter}) also compares the incoming nodes with each other", f.loc(call), lvl == 2,
+                                           'clashes between two new nodes of the same call are rejected too' if lvl == 2 else
+                                           f"{h.qualname} compares each incoming node only with the nodes already in the graph: two different new nodes sharing an id pass, and only the first becomes a member")
                 rep.ob(rule, f.fq(), f"{t} [hit branch]", f.loc(nd.stmt), ok,
                        detail if ok else f"when {X}.id is already registered the method continues without checking that self._nodes[{X}.id] is {X}: "
                        f"a different node with the same id is treated as present")
     rep.floor('C16-D2', found, 3)
 
 
-def _verifying_checker(h: FuncInfo) -> bool:
-    """h loops over its first non-self parameter and, for each element Y, raises when an expression built from self._nodes and Y.id differs from Y."""
+def _loop_level(lp: ast.For, selfn: str) -> int:
+    """0: the loop does not verify its elements against self._nodes; 1: it raises when the node registered under the element's id
+    differs from the element; 2: the compared expression additionally consults a local container fed by this loop (so two
+    incoming nodes with the same id are compared with each other as well)."""
+    if not isinstance(lp.target, ast.Name):
+        return 0
+    Y = lp.target.id
+    has_raise = any(isinstance(x, ast.Raise) for x in ast.walk(lp))
+    local_feed = set()
+    for x in ast.walk(lp):
+        if isinstance(x, ast.Subscript) and isinstance(x.ctx, ast.Store) and isinstance(x.value, ast.Name): local_feed.add(x.value.id)
+        if isinstance(x, ast.Call) and isinstance(x.func, ast.Attribute) and x.func.attr in ('setdefault', 'add', 'append') and isinstance(x.func.value, ast.Name):
+            local_feed.add(x.func.value.id)
+    best = 0
+    for st in lp.body:
+        if not isinstance(st, ast.If):
+            continue
+        for c in [x for x in ast.walk(st.test) if isinstance(x, ast.Compare) and len(x.ops) == 1 and isinstance(x.ops[0], (ast.Eq, ast.NotEq))]:
+            sides = [c.left, c.comparators[0]]
+            for a, b in (sides, sides[::-1]):
+                if norm(a) == Y and f"{selfn}._nodes" in cnorm(b) and f"{Y}.id" in norm(b) and has_raise:
+                    best = max(best, 2 if (names_in(b) & local_feed) else 1)
+    return best
+
+
+def _verifying_checker(h: FuncInfo) -> int:
     selfn = h.self_name()
     pos = [p for p in h.positional_params() if p != selfn]
     if not pos:
-        return False
-    for lp in [x for x in own_nodes(h.node) if isinstance(x, ast.For) and norm(x.iter) == pos[0] and isinstance(x.target, ast.Name)]:
-        Y = lp.target.id
-        has_raise = any(isinstance(x, ast.Raise) for x in ast.walk(lp))
-        for c in [x for x in ast.walk(lp) if isinstance(x, ast.Compare) and len(x.ops) == 1 and isinstance(x.ops[0], (ast.Eq, ast.NotEq))]:
-            sides = [c.left, c.comparators[0]]
-            for a, b in (sides, sides[::-1]):
-                if norm(a) == Y and f"{selfn}._nodes" in cnorm(b) and f"{Y}.id" in norm(b):
-                    # unconditional: the comparison is the test of an `if` directly in the loop body
-                    direct = any(isinstance(st, ast.If) and c in list(ast.walk(st.test)) for st in lp.body)
-                    if has_raise and direct:
-                        return True
-    return False
+        return 0
+    return max([_loop_level(lp, selfn) for lp in own_nodes(h.node) if isinstance(lp, ast.For) and norm(lp.iter) == pos[0]] or [0])
 
 
 # ------------------------------------------------------------------------------------------ D3
